@@ -111,7 +111,7 @@ def make_field(rng, mesh, nvdim, dtype=None, custom=None):
         kw["dtype"] = gen.pick(rng, [float, np.float64, np.float32])
         dtype = "float_declared"
     valid = gen.rand_valid(rng, n)
-    f = df.Field(mesh, nvdim=nvdim, value=arr, valid=valid, **kw)
+    f = gen.via_history(None, df.Field(mesh, nvdim=nvdim, value=arr, valid=valid, **kw))
     return f, dtype
 
 
